@@ -56,6 +56,19 @@ def build_terms(tier: str, seed: int) -> Tuple[List[dict], Dict[str, Any]]:
 
     for fam, term in G.special_families(extended=True):
         add(fam, term)
+    for fam, term in G.same_field_chains():
+        add(fam, term)
+    # deep structure: operator skeletons whose sub-groups start and end with groups, strings with parentheses / quotes
+    atoms = G.bool_atoms()
+    atoms2 = [("cmp", "eq", ("field", "a"), G.INT_Q), ("cmp", "eq", ("field", "s"), ("str", "((")), ("field", "f"),
+              ("cmp", "eq", ("field", "u"), ("str", "')'")), ("in", ("field", "b"), [G.INT_Q, G.INT_Q])]
+    for fam, term in G.deep_bool((2, 3, 4), atoms, rng, {4: 500} if quick else {}):
+        add(fam, term)
+    for fam, term in G.deep_bool((3,) if quick else (3, 4), atoms2, rng, {3: 150} if quick else {}):
+        add(fam, term)
+    for fam, term in G.deep_arith((2, 3) if quick else (2, 3, 4), rng, {3: 200} if quick else {4: 3000},
+                                  ops=("add", "sub", "mul", "div") if quick else ("add", "sub", "mul", "div", "mod")):
+        add(fam, term)
     n_special = len(out)
     ext = G.Cfg(G.extended_leaves(["a", "%"]), extended=True)
     for n in (0, 1):
